@@ -243,6 +243,20 @@ func lq(s string) string {
 
 type rows [][]string
 
+// reflectTag returns the json name of a struct tag ("" if none)
+func reflectTag(tag string) string {
+	i := strings.Index(tag, `json:"`)
+	if i < 0 {
+		return ""
+	}
+	rest := tag[i+6:]
+	j := strings.Index(rest, `"`)
+	if j < 0 {
+		return ""
+	}
+	return rest[:j]
+}
+
 func (r rows) lean(name, typ string, mk func([]string) string) string {
 	var sb strings.Builder
 	fmt.Fprintf(&sb, "def %s : List %s := [\n", name, typ)
@@ -948,6 +962,40 @@ func main() {
 	sortRows(validateRows)
 	sortRows(routeRows)
 	sortRows(validateGuards)
+	// ---- C05 / C04: the fields of the transaction envelope. Signatures cover RawTx.RawBytes(); every
+	// field of SignedTx outside the embedded RawTx, of Signature and of PublicKey is a place where a
+	// byte string can differ without any signature noticing, so the list is an expectation
+	var envelopeFields rows
+	for _, pkg := range pkgs {
+		short := strings.TrimPrefix(pkg.PkgPath, "github.com/Oneledger/protocol/")
+		var names []string
+		switch short {
+		case "action":
+			names = []string{"SignedTx", "RawTx", "Signature", "Fee", "Amount"}
+		case "data/keys":
+			names = []string{"PublicKey"}
+		}
+		for _, n := range names {
+			obj := pkg.Types.Scope().Lookup(n)
+			if obj == nil {
+				continue
+			}
+			st, ok := obj.Type().Underlying().(*types.Struct)
+			if !ok {
+				continue
+			}
+			for i := 0; i < st.NumFields(); i++ {
+				f := st.Field(i)
+				tag := reflectTag(st.Tag(i))
+				emb := "false"
+				if f.Embedded() {
+					emb = "true"
+				}
+				envelopeFields = append(envelopeFields, []string{short + "." + n, f.Name(), tag, emb})
+			}
+		}
+	}
+	sort.SliceStable(envelopeFields, func(i, j int) bool { return envelopeFields[i][0] < envelopeFields[j][0] })
 	// hookAims keep source order per function; sort functions by name (stable)
 	sort.SliceStable(hookAims, func(i, j int) bool { return hookAims[i][0] < hookAims[j][0] })
 	var sb strings.Builder
@@ -983,6 +1031,10 @@ func main() {
 	}))
 	sb.WriteString(validateGuards.lean("validateGuards", "SessionRule", func(x []string) string {
 		return fmt.Sprintf("⟨%s, %s, %s, %s⟩", lq(x[0]), lq(x[1]), lq(x[2]), lq(x[3]))
+	}))
+	sb.WriteString("structure EnvelopeField where\n  owner : String\n  field : String\n  json : String\n  embedded : Bool\n  deriving DecidableEq, Repr\n\n")
+	sb.WriteString(envelopeFields.lean("envelopeFields", "EnvelopeField", func(x []string) string {
+		return fmt.Sprintf("⟨%s, %s, %s, %s⟩", lq(x[0]), lq(x[1]), lq(x[2]), x[3])
 	}))
 	// option-copy setters of InitChain vs start-up, normalised to "<store>.<setter>"
 	norm := func(fn string) rows {
